@@ -326,6 +326,7 @@ type HistOpts struct {
 	Repeats     bool // inject key-repeat noise
 	MidiIn      bool
 	NoPanic     bool
+	AnyAction   bool // no restriction on action presses (see histState.anyAction)
 	UnmappedKey bool
 }
 
@@ -340,6 +341,9 @@ type histState struct {
 	spare    []uint16
 	steps    []Step
 	axisOut  map[string]bool // axes (sub/code) whose last generated position is not 0
+	// anyAction: action keys are pressed whatever else is held, also a third action while both keys of an up/down pair are
+	// down (outside C04's quantifier; C13's quantifies over every key history)
+	anyAction bool
 }
 
 // axisPos: position of a raw value as a fraction of travel, -1..1 around the rest position (0 for signed axes, the centre
@@ -512,7 +516,7 @@ func (h *histState) codeOfAction(a string) (uint16, bool) {
 // emitted instead).
 func (h *histState) toggle(code uint16) {
 	if act, isAct := h.actions[code]; isAct && !h.down[code] {
-		if p, complete := h.pairComplete(); complete {
+		if p, complete := h.pairComplete(); complete && !h.anyAction {
 			// release one key of the pair instead of pressing a third action
 			c, _ := h.codeOfAction(p)
 			h.emitKey(c, 0)
@@ -555,6 +559,7 @@ func (h *histState) tap(code uint16) {
 
 func genHistory(t *rapid.T, d *Desc, o HistOpts) []Step {
 	h := newHistState(d)
+	h.anyAction = o.AnyAction
 	h.scatter(t)
 	n := rapid.IntRange(1, o.MaxLen).Draw(t, "histLen")
 	var stateKeys []uint16
